@@ -388,7 +388,9 @@ def _record(sim, w, s0, s1, t0, t1, sandbox_index):
         events.append({'seq': s['seq'], 'kind': 'spawn', 'id': s['tag'], 'cwd': rel(s['cwd']), 'env': dict(s['env']),
                        'waits': list(s['waits']), 'killed': s['killed'], 'exit': s['exit'], 'error': s.get('spawn_error'),
                        'args': nargs(s['args']), 'stdin': s['stdin'], 't_spawn': 0, 't_kill': None, 'n': 0,
-                       'obs': s['obs'].get('sbx')})
+                       'obs': s['obs'].get('sbx'),
+                       # (the source-interpreter actor hands the interpreter a file with the [act] contents of the case)
+                       'given_files': sorted(s['files'].values()) if s['tag'] == 'interp' else None})
     for t in traces:
         if t['step'] in ('main', 'execute'):
             events.append({'seq': t['seq'], 'kind': t['step'], 'id': t['id'], 'cwd': rel(t['cwd']),
@@ -686,6 +688,9 @@ def oracle(plan, hist):
                 if x is None:
                     continue
                 if e['kind'] == 'spawn':
+                    if e['id'] == 'interp' and not any(('%s-atc' % cid) in f for f in (e.get('given_files') or [])):
+                        bad('action_is_the_one_of_this_case', {'source file contains': '%% %s-atc' % cid},
+                            {'files given to the interpreter': e.get('given_files')}, case=cid, mode=mode)
                     if e['id'].endswith('-atc') or e['id'] == 'interp':
                         texts = [it.get('text') for it in c['case']['setup']]
                         want_stdin = 'leaked-stdin' if 'stdin = "leaked-stdin"' in texts else ''
